@@ -55,6 +55,22 @@ def plainName : Cps → Bool
 /-- body of a plain STRING with quote `q`: not the quote, no backslash, no LF / CR / FF -/
 def strPlain (q c : Nat) : Bool := c != q && c != 92 && c != 10 && c != 13 && c != 12
 
+/-- a comment behind a run of stars: `/` ends it, any other code point starts a piece `[^/*][^*]*\*+` -/
+def cmSegs : Nat → Cps → Bool
+  | 0, _ => false
+  | f + 1, s =>
+    match s with
+    | [] => false
+    | c :: t =>
+      if c == 47 then t.isEmpty
+      else c != 42 && !((t.dropWhile (· != 42)).length == ((t.dropWhile (· != 42)).dropWhile (· == 42)).length) &&
+        cmSegs f ((t.dropWhile (· != 42)).dropWhile (· == 42))
+
+/-- the text of a comment behind `/*`: it ends with its first `*/` (no hidden end, no missing end) -/
+def cmTail (s : Cps) : Bool :=
+  !((s.dropWhile (· != 42)).length == ((s.dropWhile (· != 42)).dropWhile (· == 42)).length) &&
+    cmSegs (s.length + 1) ((s.dropWhile (· != 42)).dropWhile (· == 42))
+
 /-- the single-character tokens of the selector grammar: `, : > [ ]` (fast path of the tokenizer), `= )`,
 `* | ~` (unless `=` follows), `.` (unless a digit follows), `+` (unless a digit or `.` follows) -/
 def plainChars : List Nat := [44, 58, 62, 91, 93, 61, 41, 42, 124, 126, 46, 43]
@@ -94,7 +110,7 @@ def Tok.plainCls (t : Tok) : Bool :=
       | q :: r => (q == 34 || q == 39) && r.getLast? == some q && r.dropLast.all (strPlain q)
       | [] => false)
   | .comment => (match t.val with
-      | 47 :: 42 :: r => r.drop (r.length - 2) == [42, 47] && (r.take (r.length - 2)).all (· != 42)
+      | 47 :: 42 :: r => cmTail r
       | _ => false)
   | .number => !t.val.isEmpty && t.val.all (inRanges digitR)
   | .dimension => !(t.val.takeWhile (inRanges digitR)).isEmpty && plainName (t.val.dropWhile (inRanges digitR))
